@@ -33,6 +33,15 @@ Strengthened after the seeded round 3 (all three detected at the quick tier):
   C17-s9 restored remaining time clamped to the default duration (per-event duration ignored)
          C17/accepted-value-expired-early/restored-value
 
+Strengthened after the seeded round 4 (both detected at the quick tier):
+  C17-s10 no early initialisation for a block whose initialisation has not started: a put sent
+          as soon as is_ready() is true (no wait_init()) or forwarded by an earlier-created
+          persistent block's restore is overwritten by the value restored afterwards
+          C17/wrong-initial-output/put-overwritten-by-restore
+  C17-s11 Input: set_output() inside the try that catches the validation error: a ValueError of
+          a consumer of the output event makes the put return False after the output changed
+          C17/returned-False-but-output-changed
+
 Sensitivity (8000 runs of the quick tier against the repaired scratch copy + one mutation;
 "caught" = exit 1; all mutations are in edzed/blocklib/sblocks2.py unless noted):
 
@@ -90,7 +99,11 @@ RULE = ("one run = one Input (60%) or InputExp (40%) with one of the 8 presence 
         "(default or per-event duration up to 5 s), stop while it is valid, restart before it "
         "expires, puts around the restored expiry, time running on past the restored and the "
         "newest expiry; 35% of the InputExp restart runs step the wall clock (+-0.3 s .. 1 h) "
-        "during the first simulation. "
+        "during the first simulation. Input runs: 20% send 1-2 external puts as soon as "
+        "is_ready() is true (before wait_init(), i.e. before the saved state is restored), 20% "
+        "of the persistent ones have an earlier-created persistent block whose restored value is "
+        "forwarded by its on_output event, 20% have a consumer of the output events (destination "
+        "handler or event filter) that raises ValueError for 1-4 of the acceptable results. "
         "non-trivial = at least one put was delivered to a running block; distinct = hash of "
         "(kind, combination, init source verdicts, per put: route, accepted or the rejecting "
         "validator, unhashable, tie/expiry position; restart shape)")
@@ -104,8 +117,18 @@ REACH_EXPECTED = ['rejected_by_allowed', 'rejected_by_check', 'rejected_by_schem
                   'inputexp_roundtrip_expired', 'zero_duration_put', 'empty_allowed',
                   'all_three_validators', 'accepted_put_before_restored_expiry',
                   'restart_inside_validity_window', 'restored_longer_than_default_duration',
-                  'restart_in_window_after_clock_jump']
+                  'restart_in_window_after_clock_jump', 'early_put_before_initialisation',
+                  'early_put_accepted_with_saved_value', 'forwarded_restored_value',
+                  'consumer_fault']
 ASSUMPTIONS = [
+    "initialisation order as documented (docs/blocks.rst): saved persistent value, initdef if "
+    "still uninitialised, events last; a block receiving an event earlier completes its own "
+    "initialisation first; external puts before wait_init() come first, then the value "
+    "forwarded by the earlier-created block, then events from regular init routines",
+    "a ValueError raised by a consumer of the Input's output event is not a validation failure: "
+    "it propagates out of the event handler (the simulation stops, as documented for errors in "
+    "handlers); the only thing demanded then is that the put is not reported as False with a "
+    "changed output, and that the output holds the accepted value",
     "'among allowed' and 'unchanged' mean Python == (DESIGN 3.3); 1, 1.0 and True are one value",
     "validators are total functions given by tables (check never raises; schema raises only "
     "subclasses of Exception); members of 'allowed' are hashable",
@@ -242,6 +265,16 @@ def gen(rng, tier, index=0):
         if cfg['initdef'] is None and plan['stored'] is None and plan['init_event'] is None \
                 and acc and rng.random() < 0.85:
             plan['init_event'] = {'v': rng.choice(acc)}
+    if kind == 'input':
+        if rng.random() < 0.2:
+            cfg['early'] = [{'v': pick()} for _ in range(rng.choice([1, 1, 2]))]
+        if cfg['persistent'] and rng.random() < 0.2:
+            cfg['fwd'] = {'v': pick()}
+        if rng.random() < 0.2:
+            results = [key(vals.validate(v)[1]) for v in acc] or [key(0)]
+            cfg['consumer'] = {'how': rng.choice(['handler', 'filter']),
+                               'keys': sorted(set(rng.choice(results)
+                                                  for _ in range(rng.choice([1, 2, 4]))))}
     nops = rng.randint(1, 8)
     plan['ops'], t, deadline = _gen_ops(rng, kind, vals, pick, nops, cfg.get('duration'), deadline)
     # "restart window" stratum: a persistent InputExp is stopped while the value accepted last
@@ -292,6 +325,8 @@ def gen(rng, tier, index=0):
                 rs['tamper'] = {'v': rng.choice(GARBAGE) if rng.random() < 0.25 else pick2()}
             elif r < 0.5:
                 rs['tamper'] = {'delete': True}
+            if rng.random() < 0.3:
+                rs['early'] = [{'v': pick2()} for _ in range(rng.choice([1, 1, 2]))]
         left = None if deadline is None else max(0.0, deadline - plan['stop_at']) - rs['downtime']
         rs['ops'], t2, dl2 = _gen_ops(rng, kind, vals2, pick2, rng.randint(0, 4),
                                       cfg.get('duration'), left if left and left > 0 else None)
@@ -466,14 +501,41 @@ def run_phase(run, tag, kind, vspec, cfg, stored, init_event, ops, stop_at, info
     if vals.allowed is not None and not vals.allowed:
         run.fired('reach:empty_allowed')
 
+    consumer = cfg.get('consumer') if kind == 'input' else None
+    if consumer is not None and (not isinstance(consumer, dict)
+                                 or consumer.get('how') not in ('handler', 'filter')
+                                 or not isinstance(consumer.get('keys'), list)):
+        raise PlanError('bad consumer spec')
+    fault_keys = set(consumer['keys']) if consumer else set()
+
+    def consumer_fails(value):
+        """The scripted consumer of the output events: fails for some values once running."""
+        return bool(fault_keys) and not st['initialising'] and key(value) in fault_keys
+
     def rec_sink(_rec, _etype, data):
         outev.append(copy.deepcopy(data.get('value')))
+        if consumer and consumer['how'] == 'handler' and consumer_fails(data.get('value')):
+            raise ValueError(f"consumer cannot use {data.get('value')!r}")
+
+    def out_filter(data):
+        if consumer_fails(data.get('value')):
+            raise ValueError(f"invalid literal for the consumer: {data.get('value')!r}")
+        return data
 
     ctor_exc = None
     blk = None
     try:
         recorder = fsmlib.Recorder('rec', x_sink=rec_sink)
-        kw['on_output'] = edzed.Event(recorder, 'out')
+        if consumer and consumer['how'] == 'filter':
+            kw['on_output'] = edzed.Event(recorder, 'out', efilter=out_filter)
+        else:
+            kw['on_output'] = edzed.Event(recorder, 'out')
+        fwd_value = boxed(cfg.get('fwd')) if kind == 'input' and persistent else UNDEF
+        fwd = None
+        if fwd_value is not UNDEF:
+            # created BEFORE the input block: its restored value is forwarded to the input
+            # block before the simulator has restored the input block itself
+            fwd = edzed.Input('fwd', persistent=True, on_output=edzed.Event('inp', 'put'))
         if kind == 'input':
             model = InputModel(vspec, initdef)
             if model.refused:
@@ -525,6 +587,9 @@ def run_phase(run, tag, kind, vspec, cfg, stored, init_event, ops, stop_at, info
             if kind != 'input':
                 raise PlanError('pre-stored values are generated for Input only')
             initial = {blk.key: boxed(stored), 'edzed-stop-time': 1_699_999_000.0}
+        if fwd is not None:
+            initial.setdefault('edzed-stop-time', 1_699_999_000.0)
+            initial[fwd.key] = copy.deepcopy(fwd_value)
         if kind == 'input' and blk.key in initial:
             restored = copy.deepcopy(initial[blk.key])
         storage = SimStorage(initial=initial, clock=lambda: loop._ns)
@@ -651,6 +716,30 @@ def run_phase(run, tag, kind, vspec, cfg, stored, init_event, ops, stop_at, info
             if was_valid:
                 run.fired('reach:rejected_put_while_valid')
         st['prev_rejected'] = not exp_ok
+        if exc is None and ret is False and not (
+                blk.output is not edzed.UNDEF and blk.output == before_out):
+            # whatever happened inside: "returns False" always means "nothing changed"
+            run.violate('C17/returned-False-but-output-changed',
+                        f"{label}: put {canon(value)} ({'acceptable' if exp_ok else why}): the "
+                        f"event returned False although the output changed "
+                        f"{canon(before_out)} -> {canon(blk.output)} (output events: "
+                        f"{canon(outev)})")
+            resync()
+            return
+        if (kind == 'input' and exp_ok and consumer_fails(model.output())
+                and not (before_out is not edzed.UNDEF and before_out == model.output())):
+            # The new output was delivered to a consumer that raised ValueError. That is not a
+            # validation failure: the error propagates out of the handler and (as documented
+            # for errors inside event handlers) stops the simulation.
+            run.fired('reach:consumer_fault')
+            run.beh('consumer-fault', exc is not None)
+            if not out_ok():
+                run.violate('C17/wrong-output',
+                            f"{label}: accepted put of {canon(value)} (its consumer failed): "
+                            f"output {canon(blk.output)}, expected {canon(model.output())}")
+            if exc is not None or not alive():
+                st['dead'] = True       # expected
+            return
         if exc is not None or not alive():
             st['dead'] = True
             if not exp_ok:
@@ -816,6 +905,30 @@ def run_phase(run, tag, kind, vspec, cfg, stored, init_event, ops, stop_at, info
         t_begin = run.now()
         simtask = asyncio.create_task(circuit.run_forever())
         init_err = None
+        early = []
+        early_boxes = cfg.get('early') or []
+        if early_boxes:
+            if kind != 'input' or not isinstance(early_boxes, list):
+                raise PlanError('early puts are generated for Input only')
+            # the application sends puts as soon as the circuit is ready, without wait_init()
+            for _ in range(50):
+                if circuit.is_ready() or circuit.error is not None:
+                    break
+                await asyncio.sleep(0)
+            if circuit.is_ready():
+                if blk.init_steps_completed == 0:
+                    run.fired('reach:early_put_before_initialisation')
+                for box in early_boxes:
+                    value = boxed(box)
+                    st['driver'] = box
+                    ret = exc = None
+                    try:
+                        ret = edzed.ExtEvent(blk, 'put').send(copy.deepcopy(value))
+                    except Exception as err:    # pylint: disable=broad-except
+                        exc = err
+                    finally:
+                        st['driver'] = None
+                    early.append((value, ret, exc))
         try:
             await circuit.wait_init()
         except Exception as err:    # pylint: disable=broad-except
@@ -828,10 +941,26 @@ def run_phase(run, tag, kind, vspec, cfg, stored, init_event, ops, stop_at, info
             events = [] if init_value is UNDEF else [init_value]
             if events:
                 run.fired('reach:init_event')
-            sources = model.start(restored, events)
+            # documented order: persistent data, initdef if still uninitialised; a block that
+            # receives an event earlier completes this first and handles the event afterwards
+            sources = model.start(restored, [])
             for src, val, ok in sources:
                 if src == 'restored':
                     run.fired('reach:restored_accepted' if ok else 'reach:restored_rejected')
+            for value, ret, exc in early:
+                ok = model.put(value)[0]
+                sources.append(('early', value, ok))
+                if restored is not UNDEF and ok:
+                    run.fired('reach:early_put_accepted_with_saved_value')
+                if exc is not None or ret is not ok:
+                    run.violate('C17/early-put-result',
+                                f"{tag}: put {canon(value)} sent before the initialisation was "
+                                f"over: returned {canon(ret)} / raised {canon(exc)}, expected {ok}")
+            if fwd_value is not UNDEF:
+                run.fired('reach:forwarded_restored_value')
+                sources.append(('forwarded', fwd_value, model.put(fwd_value)[0]))
+            for value in events:
+                sources.append(('event', value, model.put(value)[0]))
         elif resume is None:
             model.start(t_begin)
             st['deadline_from'] = 'init'
@@ -869,7 +998,23 @@ def run_phase(run, tag, kind, vspec, cfg, stored, init_event, ops, stop_at, info
             resync()
         elif not out_ok():
             rej = [v for s, v, ok in sources if not ok]
-            if rej and blk.output is not edzed.UNDEF and any(blk.output == v for v in rej):
+            late = [v for s_, v, ok in sources if ok and s_ in ('early', 'forwarded', 'event')]
+            alt = InputModel(vspec, initdef) if kind == 'input' and late else None
+            if alt is not None:
+                # what if the saved value had been restored AFTER the events?
+                for s_, v, ok in sources:
+                    if s_ not in ('restored', 'initdef'):
+                        alt.put(v)
+                if restored is not UNDEF:
+                    alt.put(restored)
+            if (alt is not None and alt.value is not UNDEF and blk.output is not edzed.UNDEF
+                    and blk.output == alt.value):
+                run.violate('C17/wrong-initial-output/put-overwritten-by-restore',
+                            f"{tag}: an accepted put that arrived while the circuit was being "
+                            f"initialised was overwritten by the restored value: output "
+                            f"{canon(blk.output)}, expected {canon(model.output())} "
+                            f"(order of sources {canon(sources)})")
+            elif rej and blk.output is not edzed.UNDEF and any(blk.output == v for v in rej):
                 run.violate('C17/rejected-initial-value-used',
                             f"{tag}: initial output {canon(blk.output)} is a value the validators "
                             f"reject (sources {canon(sources)}); expected {canon(model.output())}")
@@ -956,6 +1101,7 @@ def execute(plan, trace=False):
             content = out['content']
             cfg2 = dict(plan['cfg'])
             cfg2['initdef'] = rs.get('initdef')
+            cfg2['early'] = rs.get('early')
             cfg2['persistent'] = True
             vspec2 = plan['val']
             resume = {'content': content, 'expect': None}
